@@ -68,7 +68,7 @@ defjvp(anp.mod, lambda g, ans, x, y: broadcast(g, ans), lambda g, ans, x, y: -g 
 defjvp(anp.remainder, lambda g, ans, x, y: broadcast(g, ans), lambda g, ans, x, y: -g * anp.floor(x / y))
 defjvp(
     anp.power,
-    lambda g, ans, x, y: g * y * x ** anp.where(y, y - 1, 1.0),
+    lambda g, ans, x, y: g * y * x ** anp.where((y != 0) | (x != 0), y - 1, 1.0),
     lambda g, ans, x, y: g * anp.log(replace_zero(x, 1.0)) * ans,
 )
 defjvp(anp.arctan2, lambda g, ans, x, y: g * y / (x**2 + y**2), lambda g, ans, x, y: g * -x / (x**2 + y**2))
